@@ -660,7 +660,7 @@ fn run_tar(cx: &CaseCtx, rep: &mut Report, rng: &mut Rng, n: usize) {
 			1 => {
 				// member names that are not UTF-8 / not z/x/y, with a correct checksum
 				let mut b = seed.clone();
-				let name: &[u8] = *rng.pick(&[&b"\xff\xfe/1/2.png"[..], b"1/\xc3\x28/3.png", b"a/b/c.png", b"1/2/\xff.png", b"99999/1/1.png", b"1/99999999999/1.png", b"tiles.json.gz", b"./", b"1//2.png", b"1/2/3.png/"]);
+				let name: &[u8] = *rng.pick(&["1/2/Köln".as_bytes(), "1/2/€1".as_bytes(), "1/2/€12".as_bytes(), "3/4/7.🗺z".as_bytes(), "ä/1/1.png".as_bytes(), "1/ö/1.png".as_bytes(), "1/2/名.png".as_bytes(), "1/2/x.pnä".as_bytes(), "tiles.jsön".as_bytes(), &b"\xff\xfe/1/2.png"[..], b"1/\xc3\x28/3.png", b"a/b/c.png", b"1/2/\xff.png", b"99999/1/1.png", b"1/99999999999/1.png", b"tiles.json.gz", b"./", b"1//2.png", b"1/2/3.png/"]);
 				if b.len() >= 512 {
 					for x in b[..100].iter_mut() {
 						*x = 0;
@@ -708,7 +708,7 @@ fn run_directory(cx: &CaseCtx, rep: &mut Report, rng: &mut Rng, n: usize) {
 		let k = ts.tiles.keys().next().cloned().unwrap_or((0, 0, 0));
 		let zdir = root.join(k.0.to_string());
 		let xdir = zdir.join(k.1.to_string());
-		let what = rng.below(14);
+		let what = rng.below(16);
 		match what {
 			0 => {
 				let _ = std::fs::write(root.join(std::ffi::OsStr::from_bytes(b"\xff\xfe.txt")), b"x");
@@ -753,6 +753,16 @@ fn run_directory(cx: &CaseCtx, rep: &mut Report, rng: &mut Rng, n: usize) {
 			}
 			11 => {
 				let _ = std::fs::write(root.join("tiles.json"), "{\"bounds\":[1,2],\"vector_layers\":3,\"maxzoom\":\"x\"}");
+			}
+			13 | 14 => {
+				// stray entries with valid multi-byte UTF-8 names on every level
+				for name in ["Köln", "€1", "€12", "7.🗺z", "ä", "名.png", "x.pnä", "1.pbf.€", "ö.gz", "🗺", "é.br"] {
+					let _ = std::fs::write(xdir.join(name), b"x");
+					if rng.chance(0.3) {
+						let _ = std::fs::write(root.join(name), b"x");
+						let _ = std::fs::create_dir_all(zdir.join(name));
+					}
+				}
 			}
 			12 => {
 				let _ = std::fs::write(root.join("tiles.json"), b"\"\\u\xff\xff\xff\xff\"".to_vec());
